@@ -49,6 +49,13 @@ CATALOGUE = [
     '(define-fun f ((y Int)) Int (f y))\n(declare-const k Int)\n(assert (> (f k) 0))\n',
     '(declare-const g Int)\n(define-fun fg () Int g)\n(assert (p fg))\n',
     '(define-fun h ((y Int)) Int (+ (h y) 1))\n(declare-const k Int)\n(assert (> (h k) (h 0)))\n',
+    # floating-point literals: their components are bit-vector constants
+    # that other mutators (and Constants itself) rewrite on their own
+    '(declare-const v7 Float16)\n(assert (distinct (fp (_ bv1 1) (_ bv1 5) (_ bv0 10)) v7))\n',
+    '(declare-const v4 (_ FloatingPoint 5 11))\n(assert (distinct (fp (_ bv1 1) #b00000 (_ bv1 10)) v4))\n',
+    '(declare-const v (_ FloatingPoint 3 5))\n(assert (fp.lt v (fp #b0 #b111 #x0)))\n',
+    # one symbol declared twice, used in quoted form
+    '(declare-const x Int)\n(declare-const x Int)\n(assert (= |x| |x|))\n',
     # an equality between two copies of a term: a fresh variable for one of
     # them can be eliminated again
     '(declare-const a Int)\n(assert (= (+ a 1) (+ a 1)))\n',
